@@ -6,6 +6,8 @@ from . import core, tlc, designed as D, ref
 warnings.filterwarnings("ignore")
 logging.disable(logging.CRITICAL)
 K_COMP = D.DSTAR / 10 ** 1.43          # 1/(2 log10(d/k) + 1.14)^2 = 1/16
+LEVEL_M = 20000.0 / 981.0              # one height level: g * dh / (2e5) = 1e-3
+HEIGHT = {1: 0.0, 2: LEVEL_M, 3: -LEVEL_M}
 
 
 def gas_fluid():
@@ -32,9 +34,9 @@ def gen(consts, simulate=None, depth=None, seed=0):
     return out
 
 
-G_SMALL = {"MaxNodes": "= 3", "PVals": "= {500, 1200, 1300}", "HVals": "= {1}", "Demands": "= {0, 1, 2}", "NVals": "= {0, 160}",
+G_SMALL = {"MaxNodes": "= 3", "PVals": "= {500, 1200, 1300}", "HVals": "= {1, 2, 3}", "Demands": "= {0, 1, 2}", "NVals": "= {0, 160}",
            "Kinds": "<- KindsAll", "MaxSteps": "= 2"}
-G_BIG = {"MaxNodes": "= 6", "PVals": "= {300, 500, 700, 800, 1200, 1300, 2000}", "HVals": "= {1}", "Demands": "= {0, 1, 2, 4}",
+G_BIG = {"MaxNodes": "= 6", "PVals": "= {300, 500, 700, 800, 1200, 1300, 2000}", "HVals": "= {1, 2, 3}", "Demands": "= {0, 1, 2, 4}",
          "NVals": "= {0, 160, 1600}", "Kinds": "<- KindsAll"}
 
 
@@ -48,8 +50,9 @@ def run_case(job):
     net = pp.create_empty_network("dgas", fluid=gas_fluid())
     lab = {k + 1: (var.get("labels") or list(range(len(nodes))))[k] for k in range(len(nodes))}
     for k, n in enumerate(nodes, start=1):
-        pp.create_junction(net, pn_bar=var.get("pn", 3.0), tfluid_k=273.15, height_m=0.0, index=lab[k])
-    pp.create_ext_grid(net, lab[1], p_bar=nodes[0]["P"] / 100.0 - 1.01325, t_k=273.15, type="pt")
+        pp.create_junction(net, pn_bar=var.get("pn", 3.0), tfluid_k=273.15, height_m=HEIGHT[n["h"]], index=lab[k])
+    pamb = {str(i): D.pamb_ubar(h) for i, h in HEIGHT.items()}          # oracle: documented barometric formula
+    pp.create_ext_grid(net, lab[1], p_bar=nodes[0]["P"] / 100.0 - pamb[str(nodes[0]["h"])] / 1e6, t_k=273.15, type="pt")
     meta = {}
     for k, n in enumerate(nodes, start=1):
         if k == 1:
@@ -72,7 +75,7 @@ def run_case(job):
         outcome = "PipeflowNotConverged"
     except Exception as e:  # noqa
         outcome = "raised:%s" % type(e).__name__
-    case = {"id": job["id"], "s": dict(s, hm={"1": 0, "2": 10, "3": -20}), "zeta": zeta, "variant": var, "outcome": outcome,
+    case = {"id": job["id"], "s": dict(s, hm={"1": 0, "2": 1, "3": -1}, pamb=pamb), "zeta": zeta, "variant": var, "outcome": outcome,
             "obs": {"nodes": [], "branches": []}}
     if outcome != "returned":
         return case
